@@ -8,6 +8,7 @@ import (
 	"fmt"
 	"io"
 	"net"
+	"sync"
 	"time"
 
 	gortsplib "github.com/bluenviron/gortsplib/v5"
@@ -144,6 +145,8 @@ type wire struct {
 	data    []byte // carrier bytes (base64 text, websocket frames, or raw)
 	blocks  []int  // ends of the carrier blocks in data (base64 block per write, websocket frame per write)
 	lo      int    // smallest allowed cut position (0 when pre is present, else 1)
+	full    []byte // pre + data (built on first use)
+	elemEnds []int // raw offsets of the element ends (set by the round-trip jobs)
 }
 
 func dialTo(c net.Conn) gortsplib.VerifC04Dial {
@@ -318,15 +321,45 @@ type session struct {
 	conn   *conn.Conn
 	cr     *chunkReader
 	tunnel net.Conn // serverHTTPTunnel, for the base64 buffer inspection
+	brs    []*bufio.Reader
+}
+
+var brPool = sync.Pool{New: func() any { return bufio.NewReader(nil) }}
+
+func (s *session) reader(r io.Reader) *bufio.Reader {
+	br := brPool.Get().(*bufio.Reader)
+	br.Reset(r)
+	s.brs = append(s.brs, br)
+	return br
+}
+
+// release returns the bufio.Readers (default size, as the library allocates them) to the pool.
+func (s *session) release() {
+	for _, br := range s.brs {
+		br.Reset(nil)
+		brPool.Put(br)
+	}
+	s.brs = nil
+}
+
+// withData returns a copy of the wire carrying other carrier bytes (totality phase).
+func (w *wire) withData(data []byte) *wire {
+	w2 := *w
+	w2.data = data
+	w2.full = nil
+	return &w2
 }
 
 // open delivers the wire under the given partition and returns the reading conn.Conn.
-func (w *wire) open(cuts []int, one bool) (*session, error) {
+// fast (HTTP tunnel only): the POST request is not re-parsed; the server tunnel is built on a fresh
+// bufio.Reader positioned at the first base64 byte (what the server's reader looks like after
+// http.ReadRequest when the request arrived in a chunk of its own or together with the first chunk).
+func (w *wire) open(cuts []int, one bool, fast bool) (*session, error) {
 	s := &session{}
 	switch w.carrier {
 	case carDirect:
 		s.cr = &chunkReader{data: w.data, cuts: cuts, one: one}
-		s.conn = conn.NewConn(bufio.NewReader(s.cr), io.Discard)
+		s.conn = conn.NewConn(s.reader(s.cr), io.Discard)
 	case carDirectServer:
 		s.cr = &chunkReader{data: w.data, cuts: cuts, one: one}
 		mc := &memConn{in: []io.Reader{s.cr}}
@@ -334,22 +367,30 @@ func (w *wire) open(cuts []int, one bool) (*session, error) {
 		if err != nil {
 			return nil, err
 		}
-		s.conn = conn.NewConn(bufio.NewReader(rw), rw)
+		s.conn = conn.NewConn(s.reader(rw), rw)
 	case carHTTP:
-		all := make([]byte, 0, len(w.pre)+len(w.data))
-		all = append(append(all, w.pre...), w.data...)
+		if fast {
+			s.cr = &chunkReader{data: w.data, cuts: cuts, one: one}
+			tun := gortsplib.VerifC04NewServerHTTPTunnel(&memConn{}, s.reader(s.cr), &memConn{})
+			s.tunnel = tun
+			s.conn = conn.NewConn(s.reader(tun), tun)
+			break
+		}
+		if w.full == nil {
+			w.full = append(append(make([]byte, 0, len(w.pre)+len(w.data)), w.pre...), w.data...)
+		}
 		sh := make([]int, len(cuts))
 		for i, c := range cuts {
 			sh[i] = c + len(w.pre)
 		}
-		s.cr = &chunkReader{data: all, cuts: sh, one: one}
+		s.cr = &chunkReader{data: w.full, cuts: sh, one: one}
 		mc := &memConn{in: []io.Reader{s.cr}}
 		tun, err := gortsplib.VerifC04ServerAcceptHTTPTunnelPOST(mc, &memConn{})
 		if err != nil {
 			return nil, err
 		}
 		s.tunnel = tun
-		s.conn = conn.NewConn(bufio.NewReader(tun), tun)
+		s.conn = conn.NewConn(s.reader(tun), tun)
 	case carWSc2s, carWSs2c:
 		p, err := newWSPair()
 		if err != nil {
@@ -366,10 +407,10 @@ func (w *wire) open(cuts []int, one bool) (*session, error) {
 		s.cr = &chunkReader{data: data, cuts: cuts, one: one}
 		if c2s {
 			p.sc.in = []io.Reader{s.cr}
-			s.conn = conn.NewConn(bufio.NewReader(p.server), p.server)
+			s.conn = conn.NewConn(s.reader(p.server), p.server)
 		} else {
 			p.cc.in = []io.Reader{s.cr}
-			s.conn = conn.NewConn(bufio.NewReader(p.client), p.client)
+			s.conn = conn.NewConn(s.reader(p.client), p.client)
 		}
 	default:
 		return nil, fmt.Errorf("unknown carrier %q", w.carrier)
